@@ -13,9 +13,9 @@ Local Open Scope N_scope.
    equal up to [aeq] (every getter, the journal, the dirty sets, refund, logs,
    preimages), validator side equal up to the statistics-modified latch, both
    revision lists equal. *)
-Definition FX_OLD : fixes := mkFx false false.   (* the code before fix fe4c1ff *)
-Definition FX_NOW : fixes := mkFx true false.    (* the repository as it is now *)
-Definition FX_NEXT : fixes := mkFx true true.    (* with /verif/fixes/C09_validator_create_revert.diff *)
+Definition FX_OLD : fixes := mkFx false false false.   (* the code before fix fe4c1ff *)
+Definition FX_J : fixes := mkFx true false false.      (* after fe4c1ff, before 877ecbf and 464c034 *)
+Definition FX_NOW : fixes := mkFx true true true.      (* the repository as it is now *)
 
 Definition C09_full (fx : fixes) : Prop :=
   forall pre s0 ops s,
@@ -25,32 +25,27 @@ Definition C09_full (fx : fixes) : Prop :=
 (* [fx] says which repairs the code carries (Model.v, record [fixes]); the
    harness finds out which behaviour the tree under test shows and evaluates the
    model with the same switches.
-   As stated (any call allowed) the statement is too strong for either code:
+   As stated (any call allowed) the statement is too strong for any of them:
    Prepare is not journalled by design, the RIPEMD touch survives a revert by
-   design (C09_ripemd_touch_exception), and before the fix RemoveValidator and
-   RemoveWithdrawRecords were not undone (C09_refuted_before_fix). *)
+   design (C09_ripemd_touch_exception); before fe4c1ff RemoveValidator and
+   RemoveWithdrawRecords were not undone (C09_refuted_before_fix), before 877ecbf
+   a CreateValidator over a removed validator was not
+   (C09_create_over_removed_validator_before_fix). *)
 
-(* 1'. The code before fix fe4c1ff (fx = false): the statement holds outside the
-   two finding classes - [good_op false] additionally excludes RemoveValidator
-   and RemoveWithdrawRecords. *)
-Theorem C09_revert_restores_before_fix_holds_outside :
-  forall pre s0 ops s,
-    run FX_OLD pre init = Some s0 ->
-    window FX_OLD (next_rev s0) ops (fst (snapshot s0)) s ->
-    exists s', revert_to_snapshot FX_OLD s (next_rev s0) = Some s' /\ restored s' s0.
-Proof. exact (revert_restores_reachable FX_OLD). Qed.
-Print Assumptions C09_revert_restores_before_fix_holds_outside.
-
-(* 1. MAIN THEOREM, the code as it is now (fx = true).  For every history [pre],
-   every snapshot taken after it and every list of calls [ops] that does not
-   panic, keeps the snapshot valid and consists of [good_op true] calls
-   (Proofs.v) - every modelled call except Prepare and a zero-value AddBalance
-   to the RIPEMD precompile; CreateValidator / UpdateValidator /
-   RemoveValidator / GetValidatorByMainAddr under the side conditions of
-   ProofsV.v (no lazy trie load inside the window, a created address is new, the
-   statistics cover the record that is updated or removed);
-   RemoveWithdrawRecords with distinct positions - the revert to the snapshot
-   does not fail and restores the state. *)
+(* 1. MAIN THEOREM, the code as it is now (all repairs: fe4c1ff, 877ecbf,
+   464c034).  For every history [pre], every snapshot taken after it and every
+   list of calls [ops] that does not panic, keeps the snapshot valid and consists
+   of [good_op FX_NOW] calls (Proofs.v), the revert to the snapshot does not fail
+   and restores the state.  [good_op FX_NOW] admits every modelled call except
+   Prepare (not journalled by design) and a zero-value AddBalance to the RIPEMD
+   precompile (designed exception), with these side conditions on validator
+   calls (ProofsV.v): no lazy trie load inside the window; CreateValidator on a
+   new address or over a removed record of the live map (the index may or may
+   not hold the address) with non-negative statistics; UpdateValidator /
+   RemoveValidator on the live record, which is in the (ascending) index, while
+   the statistics are non-negative, counters < 2^64 and cover that record - a
+   second RemoveValidator is refused by the code; RemoveWithdrawRecords with
+   distinct positions. *)
 Theorem C09_revert_restores :
   forall pre s0 ops s,
     run FX_NOW pre init = Some s0 ->
@@ -59,17 +54,25 @@ Theorem C09_revert_restores :
 Proof. exact (revert_restores_reachable FX_NOW). Qed.
 Print Assumptions C09_revert_restores.
 
-(* 1''. With /verif/fixes/C09_validator_create_revert.diff (open finding, see
-   C09_create_over_removed_validator): CreateValidator may then also replace a
-   deleted record that is still in the live map, and the created address need
-   not be new to the index. *)
-Theorem C09_revert_restores_with_create_fix :
+(* 1'. Regression variants: the same statement for the code before the repairs,
+   with the narrower [good_op]: before fe4c1ff RemoveValidator and
+   RemoveWithdrawRecords are excluded; before 877ecbf CreateValidator must hit
+   an address that is new to the live map and the index. *)
+Theorem C09_revert_restores_before_fix_holds_outside :
   forall pre s0 ops s,
-    run FX_NEXT pre init = Some s0 ->
-    window FX_NEXT (next_rev s0) ops (fst (snapshot s0)) s ->
-    exists s', revert_to_snapshot FX_NEXT s (next_rev s0) = Some s' /\ restored s' s0.
-Proof. exact (revert_restores_reachable FX_NEXT). Qed.
-Print Assumptions C09_revert_restores_with_create_fix.
+    run FX_OLD pre init = Some s0 ->
+    window FX_OLD (next_rev s0) ops (fst (snapshot s0)) s ->
+    exists s', revert_to_snapshot FX_OLD s (next_rev s0) = Some s' /\ restored s' s0.
+Proof. exact (revert_restores_reachable FX_OLD). Qed.
+Print Assumptions C09_revert_restores_before_fix_holds_outside.
+
+Theorem C09_revert_restores_before_create_fix_holds_outside :
+  forall pre s0 ops s,
+    run FX_J pre init = Some s0 ->
+    window FX_J (next_rev s0) ops (fst (snapshot s0)) s ->
+    exists s', revert_to_snapshot FX_J s (next_rev s0) = Some s' /\ restored s' s0.
+Proof. exact (revert_restores_reachable FX_J). Qed.
+Print Assumptions C09_revert_restores_before_create_fix_holds_outside.
 
 (* 2. What "gives back" means for an observer: all account getters for every
    address and storage key, and exactly the observation vector the harness
@@ -97,12 +100,12 @@ Print Assumptions C09_restored_validator_getters.
    (slot by slot), the validator trie the same validators, index, statistics and
    withdraw queue.  The roots are hashes of exactly this content. *)
 Theorem C09_resulting_tries :
-  forall d s1 s2, restored s1 s2 ->
-    objs_sim (atrie (sa (intermediate_root d s1))) (atrie (sa (intermediate_root d s2))) /\
-    vtrie (sv (intermediate_root d s1)) = vtrie (sv (intermediate_root d s2)) /\
-    sv_index (sv (intermediate_root d s1)) = sv_index (sv (intermediate_root d s2)) /\
-    sv_stat (sv (intermediate_root d s1)) = sv_stat (sv (intermediate_root d s2)) /\
-    sv_queue (sv (intermediate_root d s1)) = sv_queue (sv (intermediate_root d s2)).
+  forall fx d s1 s2, restored s1 s2 ->
+    objs_sim (atrie (sa (intermediate_root fx d s1))) (atrie (sa (intermediate_root fx d s2))) /\
+    vtrie (sv (intermediate_root fx d s1)) = vtrie (sv (intermediate_root fx d s2)) /\
+    sv_index (sv (intermediate_root fx d s1)) = sv_index (sv (intermediate_root fx d s2)) /\
+    sv_stat (sv (intermediate_root fx d s1)) = sv_stat (sv (intermediate_root fx d s2)) /\
+    sv_queue (sv (intermediate_root fx d s1)) = sv_queue (sv (intermediate_root fx d s2)).
 Proof. exact restored_tries. Qed.
 Print Assumptions C09_resulting_tries.
 
@@ -229,28 +232,28 @@ Proof.
 Qed.
 Print Assumptions C09_nonvacuous_remove_window.
 
-(* ---- open finding: CreateValidator over a removed validator ---------------
-   RemoveValidator leaves the record in the live map (deleted flag) and in the
-   index; CreateValidator then replaces it, and validatorCreateChange.revert
-   deletes the live entry and the index entry instead of putting the replaced
-   record back.  The code as it is now (FX_NOW) loses the index entry; with the
-   proposed repair (FX_NEXT) the same history is restored. *)
+(* ---- fixed by 877ecbf: CreateValidator over a removed validator ------------
+   RemoveValidator left the record in the live map (deleted flag) and in the
+   index; CreateValidator then replaced it, and validatorCreateChange.revert
+   deleted the live entry and the index entry instead of putting the replaced
+   record back (FX_J loses the index entry).  The code as it is now (FX_NOW)
+   restores the same history. *)
 Definition w4_pre : list op := [OCreateValidator 1 1 1 9 13; OCreateValidator 2 2 1 5 50; ORemoveValidator 1].
 Definition w4_ops : list op := [OCreateValidator 1 3 0 7 70].
 Definition w4_s0 (fx : fixes) : state := match run fx w4_pre init with Some x => x | None => init end.
 Definition w4_s (fx : fixes) : state := match run fx w4_ops (fst (snapshot (w4_s0 fx))) with Some x => x | None => init end.
-Example C09_create_over_removed_validator :
-  window_gen FX_NOW any_op (next_rev (w4_s0 FX_NOW)) w4_ops (fst (snapshot (w4_s0 FX_NOW))) (w4_s FX_NOW) /\
+Example C09_create_over_removed_validator_before_fix :
+  window_gen FX_J any_op (next_rev (w4_s0 FX_J)) w4_ops (fst (snapshot (w4_s0 FX_J))) (w4_s FX_J) /\
+  (exists s', revert_to_snapshot FX_J (w4_s FX_J) (next_rev (w4_s0 FX_J)) = Some s' /\
+              vindex (sv (w4_s0 FX_J)) = [1; 2] /\ vindex (sv s') = [2] /\
+              find (vals (sv (w4_s0 FX_J))) 1 <> None /\ find (vals (sv s')) 1 = None) /\
+  window FX_NOW (next_rev (w4_s0 FX_NOW)) w4_ops (fst (snapshot (w4_s0 FX_NOW))) (w4_s FX_NOW) /\
   (exists s', revert_to_snapshot FX_NOW (w4_s FX_NOW) (next_rev (w4_s0 FX_NOW)) = Some s' /\
-              vindex (sv (w4_s0 FX_NOW)) = [1; 2] /\ vindex (sv s') = [2] /\
-              find (vals (sv (w4_s0 FX_NOW))) 1 <> None /\ find (vals (sv s')) 1 = None) /\
-  window FX_NEXT (next_rev (w4_s0 FX_NEXT)) w4_ops (fst (snapshot (w4_s0 FX_NEXT))) (w4_s FX_NEXT) /\
-  (exists s', revert_to_snapshot FX_NEXT (w4_s FX_NEXT) (next_rev (w4_s0 FX_NEXT)) = Some s' /\
-              obs_vside (sv s') = obs_vside (sv (w4_s0 FX_NEXT))).
+              obs_vside (sv s') = obs_vside (sv (w4_s0 FX_NOW))).
 Proof.
   split; [apply window_run_ok; vm_compute; reflexivity|].
   split; [eexists; split; [vm_compute; reflexivity|]; repeat split; vm_compute; (reflexivity || discriminate)|].
   split; [apply window_run_ok; vm_compute; reflexivity|].
   eexists; split; vm_compute; reflexivity.
 Qed.
-Print Assumptions C09_create_over_removed_validator.
+Print Assumptions C09_create_over_removed_validator_before_fix.
